@@ -8,6 +8,18 @@ Open Scope Z_scope.
 
 Ltac Zify.zify_post_hook ::= Z.div_mod_to_equations.
 
+(* the tables only grow *)
+Definition ext (objs : list Ptr) (pads : list region) (objs' : list Ptr) (pads' : list region) : Prop :=
+  (exists eo, objs' = objs ++ eo) /\ (exists ep, pads' = pads ++ ep).
+Lemma ext_refl objs pads : ext objs pads objs pads.
+Proof. split; exists []; now rewrite app_nil_r. Qed.
+Lemma ext_app objs pads eo ep : ext objs pads (objs ++ eo) (pads ++ ep).
+Proof. split; eexists; reflexivity. Qed.
+Lemma ext_objs objs pads eo : ext objs pads (objs ++ eo) pads.
+Proof. split; [eexists; reflexivity|exists []; now rewrite app_nil_r]. Qed.
+Lemma ext_trans a b a1 b1 a2 b2 : ext a b a1 b1 -> ext a1 b1 a2 b2 -> ext a b a2 b2.
+Proof. intros [[x ->] [y ->]] [[x' ->] [y' ->]]. split; eexists; rewrite <- app_assoc; reflexivity. Qed.
+
 (* from the table invariant of the world back to the interpreter state *)
 Lemma sinv_of_tinv st objs pads w1 eo ep :
   sinv st objs pads -> tinv w1 (objs ++ eo) (pads ++ ep) -> sinv (mkBSt w1 (st_h st)) (objs ++ eo) (pads ++ ep).
@@ -35,7 +47,7 @@ Lemma slot_store st objs pads f sd ad hs w1 :
   sinv st objs pads -> spool st -> In (sd, ad) ((0, 0) :: flat_map slots objs) ->
   write_ptr f true (st_w st) sd ad (fst (hget st hs)) (snd (hget st hs)) false = Ok w1 ->
   nsegs (w_dst w1) < 4294967296 ->
-  exists objs' pads', sinv (mkBSt w1 (st_h st)) objs' pads'.
+  exists objs' pads', sinv (mkBSt w1 (st_h st)) objs' pads' /\ ext objs pads objs' pads'.
 Proof.
   intros S SP Hq HW Hns. pose proof S as (H & P & C).
   destruct (fst (hget st hs)) eqn:El.
@@ -43,13 +55,13 @@ Proof.
     destruct (copy_all f) as [QW _].
     destruct (QW (st_w st) objs pads (sd, ad) (snd (hget st hs)) false w1) as (eo & ep & T); auto.
     + split; auto.
-    + exists (objs ++ eo), (pads ++ ep). apply sinv_of_tinv; auto.
+    + exists (objs ++ eo), (pads ++ ep). split; [apply sinv_of_tinv; auto|apply ext_app].
   - pose proof (hget_sview st hs SP El) as Vw.
     destruct (copy_src_all f) as [QW _].
     destruct (QW (st_w st) objs pads (sd, ad) (snd (hget st hs)) false w1) as (eo & ep & T); auto.
     + split; auto.
     + apply SP.
-    + exists (objs ++ eo), (pads ++ ep). apply sinv_of_tinv; auto.
+    + exists (objs ++ eo), (pads ++ ep). split; [apply sinv_of_tinv; auto|apply ext_app].
 Qed.
 
 (* copying any struct handle - of this message or of the source message - into a struct view *)
@@ -57,7 +69,7 @@ Lemma struct_store st objs pads f dst hs w1 :
   sinv st objs pads -> spool st -> view objs dst -> (p_valid dst = true -> p_kind dst = KStruct) ->
   copy_struct f true (st_w st) dst (fst (hget st hs)) (as_struct (snd (hget st hs))) = Ok w1 ->
   nsegs (w_dst w1) < 4294967296 ->
-  exists objs' pads', sinv (mkBSt w1 (st_h st)) objs' pads'.
+  exists objs' pads', sinv (mkBSt w1 (st_h st)) objs' pads' /\ ext objs pads objs' pads'.
 Proof.
   intros S SP Vd Kd HW Hns. pose proof S as (H & P & C).
   destruct (fst (hget st hs)) eqn:El.
@@ -65,13 +77,13 @@ Proof.
     destruct (copy_all f) as [_ QC].
     destruct (QC (st_w st) objs pads dst (as_struct (snd (hget st hs))) w1) as (eo & ep & T); auto.
     + split; auto.
-    + exists (objs ++ eo), (pads ++ ep). apply sinv_of_tinv; auto.
+    + exists (objs ++ eo), (pads ++ ep). split; [apply sinv_of_tinv; auto|apply ext_app].
   - pose proof (hget_sview st hs SP El) as Vq. destruct (sview_as_struct _ _ Vq) as [Vsq Ksq].
     destruct (copy_src_all f) as [_ QC].
     destruct (QC (st_w st) objs pads dst (as_struct (snd (hget st hs))) w1) as (eo & ep & T); auto.
     + split; auto.
     + apply SP.
-    + exists (objs ++ eo), (pads ++ ep). apply sinv_of_tinv; auto.
+    + exists (objs ++ eo), (pads ++ ep). split; [apply sinv_of_tinv; auto|apply ext_app].
 Qed.
 
 (* the data setters of the theorem act on the message under construction *)
@@ -91,17 +103,17 @@ Qed.
 Theorem bstep_hinv e st objs pads o st' out :
   sinv st objs pads -> spool st -> sub_op o = true -> dst_only st o -> bstep e st o = (Some st', out) ->
   nsegs (w_dst (st_w st')) < 4294967296 ->
-  exists objs' pads', sinv st' objs' pads'.
+  exists objs' pads', sinv st' objs' pads' /\ ext objs pads objs' pads'.
 Proof.
   intros S SP Hop Hdo. pose proof S as [H P]. unfold bstep. destruct o; try discriminate Hop; cbv zeta.
   - (* NewStruct *)
     destruct (negb (valid_sid st sid)) eqn:EV.
-    { intros E _. injection E as <- _. exists objs, pads. now apply sinv_push_null. }
+    { intros E _. injection E as <- _. exists objs, pads. split; [now apply sinv_push_null|apply ext_refl]. }
     assert (Vs : valid_sid st sid = true) by (destruct (valid_sid st sid); auto; discriminate).
     unfold ctor, newStruct. destruct (negb (os_isValid (mkOS dsz pc))) eqn:EO; [discriminate|].
     unfold os_isValid in EO. cbn [DataSize PointerCount] in *.
     destruct (alloc (w_dst (st_w st)) sid _) as [[[m1 s1] a]| |] eqn:EA; cbn [bind]; try discriminate.
-    intros E Hns. injection E as <- _. cbn [hpush st_w w_dst w_set_dst] in Hns. eexists _, pads.
+    intros E Hns. injection E as <- _. cbn [hpush st_w w_dst w_set_dst] in Hns. eexists _, pads. split; [|apply ext_objs].
     cbn [sub_op] in Hop.
     eapply (alloc_ctor st objs pads sid _ m1 s1 a); eauto.
     + apply totalSize_nn.
@@ -109,11 +121,11 @@ Proof.
       split; [lia|]. split; [reflexivity|]. split; reflexivity.
   - (* NewPrim *)
     destruct (negb (valid_sid st sid)) eqn:EV.
-    { intros E _. injection E as <- _. exists objs, pads. now apply sinv_push_null. }
+    { intros E _. injection E as <- _. exists objs, pads. split; [now apply sinv_push_null|apply ext_refl]. }
     assert (Vs : valid_sid st sid = true) by (destruct (valid_sid st sid); auto; discriminate).
     unfold ctor, newPrimitiveList. destruct ((n <? 0) || (n >=? 536870912)) eqn:EN; [discriminate|].
     destruct (alloc (w_dst (st_w st)) sid _) as [[[m1 s1] a]| |] eqn:EA; cbn [bind]; try discriminate.
-    intros E Hns. injection E as <- _. cbn [hpush st_w w_dst w_set_dst] in Hns. eexists _, pads.
+    intros E Hns. injection E as <- _. cbn [hpush st_w w_dst w_set_dst] in Hns. eexists _, pads. split; [|apply ext_objs].
     cbn [sub_op] in Hop.
     assert (Hsz : sz = 0 \/ sz = 1 \/ sz = 2 \/ sz = 4 \/ sz = 8).
     { destruct (sz =? 0) eqn:E0; [left; lia|right]. apply width_b_ok. cbn in Hop. exact Hop. }
@@ -126,21 +138,21 @@ Proof.
     + rewrite list_alloc_eq; cbn [p_valid p_kind p_bit p_size p_len p_comp DataSize PointerCount]; auto; try lia.
   - (* NewBit *)
     destruct (negb (valid_sid st sid)) eqn:EV.
-    { intros E _. injection E as <- _. exists objs, pads. now apply sinv_push_null. }
+    { intros E _. injection E as <- _. exists objs, pads. split; [now apply sinv_push_null|apply ext_refl]. }
     assert (Vs : valid_sid st sid = true) by (destruct (valid_sid st sid); auto; discriminate).
     unfold ctor, newBitList. destruct ((n <? 0) || (n >=? 536870912)) eqn:EN; [discriminate|].
     destruct (alloc (w_dst (st_w st)) sid _) as [[[m1 s1] a]| |] eqn:EA; cbn [bind]; try discriminate.
-    intros E Hns. injection E as <- _. cbn [hpush st_w w_dst w_set_dst] in Hns. eexists _, pads.
+    intros E Hns. injection E as <- _. cbn [hpush st_w w_dst w_set_dst] in Hns. eexists _, pads. split; [|apply ext_objs].
     assert (Sh : shape_ok (mkPtr true s1 a n (mkOS 0 0) maxDepth KList false true false)).
     { unfold shape_ok. cbn [p_kind p_comp p_len p_bit p_size]. split; [lia|]. left. split; [reflexivity|]. left. auto. }
     eapply (alloc_ctor st objs pads sid _ m1 s1 a); eauto; try (unfold bitListSize, u32; lia); try (rewrite list_alloc_eq; auto).
   - (* NewPList *)
     destruct (negb (valid_sid st sid)) eqn:EV.
-    { intros E _. injection E as <- _. exists objs, pads. now apply sinv_push_null. }
+    { intros E _. injection E as <- _. exists objs, pads. split; [now apply sinv_push_null|apply ext_refl]. }
     assert (Vs : valid_sid st sid = true) by (destruct (valid_sid st sid); auto; discriminate).
     unfold ctor, newPointerList. destruct (times 8 n) as [total|] eqn:ET; [|discriminate].
     destruct (alloc (w_dst (st_w st)) sid total) as [[[m1 s1] a]| |] eqn:EA; cbn [bind]; try discriminate.
-    intros E Hns. injection E as <- _. cbn [hpush st_w w_dst w_set_dst] in Hns. eexists _, pads.
+    intros E Hns. injection E as <- _. cbn [hpush st_w w_dst w_set_dst] in Hns. eexists _, pads. split; [|apply ext_objs].
     unfold times in ET. cbv zeta in ET.
     destruct ((8 * n >? maxSegmentSize) || (8 * n <? 0)) eqn:EB; [discriminate|].
     assert (total = 8 * n) by congruence. subst total. unfold maxSegmentSize in EB.
@@ -149,7 +161,7 @@ Proof.
     eapply (alloc_ctor st objs pads sid _ m1 s1 a); eauto; try lia; try (rewrite list_alloc_eq; auto; cbn; lia).
   - (* NewComp *)
     destruct (negb (valid_sid st sid)) eqn:EV.
-    { intros E _. injection E as <- _. exists objs, pads. now apply sinv_push_null. }
+    { intros E _. injection E as <- _. exists objs, pads. split; [now apply sinv_push_null|apply ext_refl]. }
     assert (Vs : valid_sid st sid = true) by (destruct (valid_sid st sid); auto; discriminate).
     cbn [sub_op] in Hop.
     unfold ctor, newCompositeList. destruct (negb (os_isValid (mkOS dsz pc))) eqn:EO; [discriminate|].
@@ -172,7 +184,7 @@ Proof.
     destruct (writeRawPointer m1 s1 a tag) as [m2| |] eqn:EW; cbn [bind]; try discriminate.
     intros E Hns. injection E as <- _. cbn [hpush st_w w_dst w_set_dst] in Hns.
     set (h := mkPtr true s1 (addSizeUnchecked a 8) n sz maxDepth KList true false false).
-    exists (objs ++ [core h]), pads.
+    exists (objs ++ [core h]), pads. split; [|apply ext_objs].
     apply valid_sid_range in Vs.
     assert (Hz : 0 <= 8 + 8 * (n * wc)) by lia.
     destruct (alloc_keeps _ _ _ _ _ _ (hi_inv _ _ _ H) Vs Hz EA) as (_ & I1 & N1 & S1 & AD & L1 & _ & _ & _ & MX).
@@ -192,14 +204,14 @@ Proof.
     + destruct P as [P C]. split; [|apply cores_snoc; exact C]. apply pool_push_obj; auto.
   - (* NewVoid *)
     destruct (negb (valid_sid st sid)) eqn:EV.
-    { intros E _. injection E as <- _. exists objs, pads. now apply sinv_push_null. }
+    { intros E _. injection E as <- _. exists objs, pads. split; [now apply sinv_push_null|apply ext_refl]. }
     assert (Vs : valid_sid st sid = true) by (destruct (valid_sid st sid); auto; discriminate).
     apply valid_sid_range in Vs.
     unfold newVoidList. destruct ((n <? 0) || (n >=? 536870912)) eqn:EN.
-    { intros E _. injection E as <- _. exists objs, pads. now apply sinv_push_null. }
+    { intros E _. injection E as <- _. exists objs, pads. split; [now apply sinv_push_null|apply ext_refl]. }
     intros E Hns. injection E as <- _.
     set (h := mkPtr true sid 0 n (mkOS 0 0) maxDepth KList false false false).
-    exists (objs ++ [core h]), pads.
+    exists (objs ++ [core h]), pads. split; [|apply ext_objs].
     assert (Sh : shape_ok (core h)).
     { unfold shape_ok, h. cbn [core p_kind p_comp p_len p_bit p_size]. split; [lia|]. left. split; [reflexivity|].
       right. split; [reflexivity|]. right. exists 0. split; [reflexivity|lia]. }
@@ -217,7 +229,7 @@ Proof.
     + destruct P as [P C]. split; [|apply cores_snoc; exact C]. apply pool_push_obj; auto.
   - (* NewBytes *)
     destruct (negb (valid_sid st sid)) eqn:EV.
-    { intros E _. injection E as <- _. exists objs, pads. now apply sinv_push_null. }
+    { intros E _. injection E as <- _. exists objs, pads. split; [now apply sinv_push_null|apply ext_refl]. }
     assert (Vs : valid_sid st sid = true) by (destruct (valid_sid st sid); auto; discriminate).
     cbn [sub_op] in Hop. pose proof (zlen_nonneg v) as Zv.
     set (n := s32 (zlen v + (if nul then 1 else 0))).
@@ -229,7 +241,7 @@ Proof.
     destruct (seg_write m1 s1 a v) as [m2| |] eqn:EW; cbn [bind]; try discriminate.
     intros E Hns. injection E as <- _. cbn [hpush st_w w_dst w_set_dst] in Hns.
     set (h := mkPtr true s1 a n (mkOS 1 0) maxDepth KList false false false).
-    exists (objs ++ [core h]), pads.
+    exists (objs ++ [core h]), pads. split; [|apply ext_objs].
     assert (Sh : shape_ok h).
     { unfold shape_ok, h. cbn [p_kind p_comp p_len p_bit p_size]. split; [lia|]. left. split; [reflexivity|].
       right. split; [reflexivity|]. right. exists 1. split; [reflexivity|lia]. }
@@ -254,17 +266,17 @@ Proof.
     + intros q Hq. unfold slots, tgt_of, h in Hq. cbn in Hq. destruct Hq.
   - (* NewInterface *)
     destruct (negb (valid_sid st sid)) eqn:EV.
-    { intros E _. injection E as <- _. exists objs, pads. now apply sinv_push_null. }
-    intros E _. injection E as <- _. exists objs, pads. cbn [sub_op] in Hop.
+    { intros E _. injection E as <- _. exists objs, pads. split; [now apply sinv_push_null|apply ext_refl]. }
+    intros E _. injection E as <- _. exists objs, pads. split; [|apply ext_refl]. cbn [sub_op] in Hop.
     destruct P as [P C]. split; [exact H|]. split; [|exact C]. apply pool_ok_push; auto.
     right. right. right. right. split; [reflexivity|]. split; [cbn [p_len]; lia|reflexivity].
   - (* AddCap *)
-    intros E _. injection E as <- _. exists objs, pads. apply sinv_same_segs; auto.
+    intros E _. injection E as <- _. exists objs, pads. split; [|apply ext_refl]. apply sinv_same_segs; auto.
   - (* SetUint *)
     destruct (hget st h) as [l p] eqn:EH. cbn [sub_op] in Hop.
     unfold dset. destruct (set_in (st_w st) l _) as [w1| |] eqn:ES; intros E Hns; injection E as <- _;
-      try (exists objs, pads; exact S).
-    exists objs, pads.
+      try (exists objs, pads; split; [exact S|apply ext_refl]).
+    exists objs, pads. split; [|apply ext_refl].
     apply andb_prop in Hop. destruct Hop as [Ho1 Ho2].
     assert (Hoff : 0 <= off) by lia. assert (Hn : n = 1 \/ n = 2 \/ n = 4 \/ n = 8) by (apply width_b_ok; exact Ho2).
     pose proof Hdo as Hl. unfold dst_only in Hl. cbn [setter_handle] in Hl. rewrite EH in Hl. cbn in Hl. subst l.
@@ -290,8 +302,8 @@ Proof.
   - (* SetBit *)
     destruct (hget st h) as [l p] eqn:EH. cbn [sub_op] in Hop.
     unfold dset. destruct (set_in (st_w st) l _) as [w1| |] eqn:ES; intros E Hns; injection E as <- _;
-      try (exists objs, pads; exact S).
-    exists objs, pads. assert (Hn0 : 0 <= n) by lia.
+      try (exists objs, pads; split; [exact S|apply ext_refl]).
+    exists objs, pads. split; [|apply ext_refl]. assert (Hn0 : 0 <= n) by lia.
     pose proof Hdo as Hl. unfold dst_only in Hl. cbn [setter_handle] in Hl. rewrite EH in Hl. cbn in Hl. subst l.
     pose proof (hget_view st objs pads h S) as Vw. rewrite EH in Vw. cbn [fst snd] in Vw. specialize (Vw eq_refl).
     assert (Hval : p_valid (as_struct p) = true).
@@ -316,8 +328,8 @@ Proof.
   - (* UIntNList.Set *)
     destruct (hget st h) as [l p] eqn:EH. cbn [sub_op] in Hop.
     unfold dset. destruct (set_in (st_w st) l _) as [w1| |] eqn:ES; intros E Hns; injection E as <- _;
-      try (exists objs, pads; exact S).
-    exists objs, pads. assert (Hn : n = 1 \/ n = 2 \/ n = 4 \/ n = 8) by (apply width_b_ok; exact Hop).
+      try (exists objs, pads; split; [exact S|apply ext_refl]).
+    exists objs, pads. split; [|apply ext_refl]. assert (Hn : n = 1 \/ n = 2 \/ n = 4 \/ n = 8) by (apply width_b_ok; exact Hop).
     pose proof Hdo as Hl. unfold dst_only in Hl. cbn [setter_handle] in Hl. rewrite EH in Hl. cbn in Hl. subst l.
     pose proof (hget_view st objs pads h S) as Vw. rewrite EH in Vw. cbn [fst snd] in Vw. specialize (Vw eq_refl).
     unfold set_in, lift0, list_set_uint in ES.
@@ -340,8 +352,8 @@ Proof.
   - (* BitList.Set *)
     destruct (hget st h) as [l p] eqn:EH.
     unfold dset. destruct (set_in (st_w st) l _) as [w1| |] eqn:ES; intros E Hns; injection E as <- _;
-      try (exists objs, pads; exact S).
-    exists objs, pads.
+      try (exists objs, pads; split; [exact S|apply ext_refl]).
+    exists objs, pads. split; [|apply ext_refl].
     pose proof Hdo as Hl. unfold dst_only in Hl. cbn [setter_handle] in Hl. rewrite EH in Hl. cbn in Hl. subst l.
     pose proof (hget_view st objs pads h S) as Vw. rewrite EH in Vw. cbn [fst snd] in Vw. specialize (Vw eq_refl).
     assert (Hval : p_valid (as_list p) = true /\ 0 <= i < p_len (as_list p) /\ p_bit (as_list p) = true).
@@ -451,7 +463,7 @@ Proof.
     cbn [sub_op] in Hop.
     remember (match op_handle o with Some h => fst (hget st h) | None => l end) as l1 eqn:El1.
     destruct (step (cfg_of e l1) all_fixes (w_segs (st_w st) l1) (mkRS (map snd (st_h st)) (w_rl (st_w st) l1)) o) as [rs' v0] eqn:EST.
-    intros E Hns. injection E as <- _. exists objs, pads.
+    intros E Hns. injection E as <- _. exists objs, pads. split; [|apply ext_refl].
     destruct (w_set_rl_dst (st_w st) l1 (rs_rl rs')) as (T1 & T2 & _).
     destruct l1; [|apply sinv_src_read; exact S].
     destruct (ro_op o) eqn:ERO.
@@ -501,12 +513,12 @@ Proof.
         pose proof (hget_view st objs pads h S (eq_sym El1)) as Vw.
         eapply (plat_view (e_cfgd e) (w_dst (st_w st)) objs pads (snd (hget st h)) i); eauto.
   - (* round trip *)
-    destruct (root _ _ _) as [r rl]. intros E _. injection E as <- _. exists objs, pads. exact S.
+    destruct (root _ _ _) as [r rl]. intros E _. injection E as <- _. exists objs, pads. split; [exact S|apply ext_refl].
   - (* dump *)
-    destruct l; intros E _; injection E as <- _; exists objs, pads; exact S.
+    destruct l; intros E _; injection E as <- _; exists objs, pads; (split; [exact S|apply ext_refl]).
   - (* reopen: the same bytes in a fresh multi-segment arena with cap = len; the old handles are
        dropped, the tables stay *)
-    intros E _. injection E as <- _. exists objs, pads. destruct P as [P C].
+    intros E _. injection E as <- _. exists objs, pads. split; [|apply ext_refl]. destruct P as [P C].
     set (m1 := mkBM AMulti (map (fun d => mkBS d (zlen d)) (bm_data (w_dst (st_w st)))) [] (init_rlimit (e_cfgd e))).
     assert (ED : bm_data m1 = bm_data (w_dst (st_w st))).
     { unfold bm_data at 1. cbn [bm_segs m1]. rewrite map_map. cbn [bs_data]. apply map_id. }
@@ -686,7 +698,7 @@ Proof.
   inversion Hb as [|? ? _ Hb']; subst. destruct Hd as [Hd1 Hd2].
   destruct (bstep e st o) as [[st1|] v] eqn:E; [|constructor].
   assert (B1 : seg_bound st1) by (destruct r; cbn [bstates] in Hb'; inversion Hb'; assumption).
-  destruct (bstep_hinv e st objs pads o st1 v S SP Ho Hd1 E B1) as (objs1 & pads1 & S1).
+  destruct (bstep_hinv e st objs pads o st1 v S SP Ho Hd1 E B1) as (objs1 & pads1 & S1 & _).
   pose proof (bstep_spool e st o st1 v Hcs SP Hd1 E) as SP1.
   eapply IH; eauto.
 Qed.
